@@ -268,6 +268,26 @@ theorem C10_calc_same_run (h : List IOp) (hf : IFaithful h = true) (t : Name) (d
     · exact changed_of_needsSeen hinv t p hF hst hp hn
     · exact changed_of_no_state hinv t p hF hst hp hn
 
+/-- a calc_dep result may also carry `uptodate` items (`Task.update_deps` → `_extend_uptodate`): a delivered `False`
+    makes the consumer execute in the same run — on the false-uptodate path of F-C10, i.e. with `changed == []` -/
+theorem C10_calc_delivered_uptodate_false (h : List IOp) (t : Name) (delivered : List Path) (utd : List Utd)
+    (hal : (runI h).crashed = false) (hu : Utd.const false ∈ utd) :
+    let σ := runI (h ++ [.base (.redefine t (withCalcU ((runI h).defs t) delivered utd))])
+    σ.status true t = .run ∧ (kwargsOf σ t).changed = [] := by
+  intro σ
+  have hdef : σ.defs t = withCalcU ((runI h).defs t) delivered utd := by
+    simp only [σ, runI, List.foldl_append, List.foldl_cons, List.foldl_nil, istep, step]
+    have hal' : (List.foldl istep St.init h).crashed = false := hal
+    simp [hal']
+  have hF : ∀ vals resOf, utdFalse vals resOf (σ.defs t).uptodate = true := by
+    intro vals resOf
+    rw [hdef]
+    simp only [utdFalse, withCalcU, List.any_append, List.any_eq_true, Bool.or_eq_true]
+    exact Or.inr ⟨_, hu, by simp [evalUtd]⟩
+  constructor
+  · simp [St.status, statusOf, earlyRun, hF]
+  · simp [kwargsOf, depChangedOf, hF]
+
 /-! ## non-vacuity -/
 
 /-- a history on which a consumer with two dependencies and a target really executes a second time, with one
